@@ -32,7 +32,8 @@ fn aggregate_dyn(nb: usize, backend: &str, buckets: &[u32], q1: u32, q2: u32, q3
 #[cfg(fast_tlsh_verif)]
 pub fn agg_backends(nb: usize) -> Vec<&'static str> {
     let b = vec![1u32; 256];
-    tlsh::verif::bucket_aggregation::BACKENDS.iter().copied().filter(|be| aggregate_dyn(nb, be, &b, 0, 0, 0).is_some()).collect()
+    // a backend that panics on the probe exists: it stays in the list so that the judged calls report the panic
+    tlsh::verif::bucket_aggregation::BACKENDS.iter().copied().filter(|be| catch(|| aggregate_dyn(nb, be, &b, 0, 0, 0)).map(|r| r.is_some()).unwrap_or(true)).collect()
 }
 
 #[cfg(fast_tlsh_verif)]
